@@ -414,7 +414,9 @@ _ordinals = st.one_of(
     st.integers(0, 4097152080),
     st.integers(-(2 ** 66), 2 ** 66),
 )
-_huge = st.builds(lambda s, k: s * (2 ** 63 + k), st.sampled_from([1, -1]), st.integers(0, 2 ** 70))
+_huge = st.one_of(st.builds(lambda s, k: s * (2 ** 63 + k), st.sampled_from([1, -1]), st.integers(0, 2 ** 70)),
+                  # beyond what a float can hold (conversions to float overflow there)
+                  st.sampled_from([2 ** 1023, 2 ** 1024, -(2 ** 1024), 2 ** 1024 + 1, 10 ** 400, -(10 ** 400), 2 ** 2000]))
 
 
 def _members(min_size=1, ordinals=_ordinals):
